@@ -53,8 +53,8 @@ def initD (hdr : List String) : Option D := do
     | "rect" => some (MState.rm (Rm.init true fixed fixed nf))
     | "shared" => some (MState.sm (Sm.init false fixed nf))
     | "sharedt" => some (MState.sm (Sm.init true fixed nf))
-    | "thread" => some (MState.th (Th.init nf))
-    | "tls" => some (MState.th (Th.init nf))
+    | "thread" => some (MState.th (Th.init fixed nf))
+    | "tls" => some (MState.th (Th.init fixed nf))
     | _ => none
   pure { m := m, nf := nf }
 
